@@ -22,6 +22,17 @@ type Informer struct {
 	Fresh bool
 	// Delivered counts delivered events.
 	Delivered int
+	// LagHandlers marks handlers (by registration index) whose notifications are not
+	// run at delivery but queued per listener, as the processListener goroutines of a
+	// real shared informer allow: the cache is updated first, listeners run later.
+	LagHandlers map[int]bool
+	lpending    map[int][]Notification
+}
+
+// Notification is one pending call of a lagging listener.
+type Notification struct {
+	Type     EventType
+	Old, Obj runtime.Object
 }
 
 var _ cache.SharedIndexInformer = (*Informer)(nil)
@@ -77,40 +88,90 @@ func (i *Informer) Deliver() bool {
 	case Added:
 		if old, exists, _ := i.indexer.GetByKey(ev.Key); exists {
 			_ = i.indexer.Update(ev.Obj)
-			for _, h := range i.handlers {
-				h.OnUpdate(old, ev.Obj)
-			}
+			i.notify(Modified, old.(runtime.Object), ev.Obj)
 			return true
 		}
 		_ = i.indexer.Add(ev.Obj)
-		for _, h := range i.handlers {
-			h.OnAdd(ev.Obj)
-		}
+		i.notify(Added, nil, ev.Obj)
 	case Modified:
 		old, exists, _ := i.indexer.GetByKey(ev.Key)
 		if !exists {
 			_ = i.indexer.Add(ev.Obj)
-			for _, h := range i.handlers {
-				h.OnAdd(ev.Obj)
-			}
+			i.notify(Added, nil, ev.Obj)
 			return true
 		}
 		_ = i.indexer.Update(ev.Obj)
-		for _, h := range i.handlers {
-			h.OnUpdate(old, ev.Obj)
-		}
+		i.notify(Modified, old.(runtime.Object), ev.Obj)
 	case Deleted:
 		old, exists, _ := i.indexer.GetByKey(ev.Key)
 		if !exists {
 			return true
 		}
 		_ = i.indexer.Delete(old)
-		for _, h := range i.handlers {
-			// Real informers hand the last known state of the object to OnDelete.
-			h.OnDelete(ev.Obj)
-		}
+		// Real informers hand the last known state of the object to OnDelete.
+		i.notify(Deleted, nil, ev.Obj)
 	}
 	return true
+}
+
+func call(h cache.ResourceEventHandler, n Notification) {
+	switch n.Type {
+	case Added:
+		h.OnAdd(n.Obj)
+	case Modified:
+		h.OnUpdate(n.Old, n.Obj)
+	case Deleted:
+		h.OnDelete(n.Obj)
+	}
+}
+
+func (i *Informer) notify(t EventType, old, obj runtime.Object) {
+	n := Notification{Type: t, Old: old, Obj: obj}
+	for idx, h := range i.handlers {
+		if i.LagHandlers[idx] {
+			if i.lpending == nil {
+				i.lpending = map[int][]Notification{}
+			}
+			i.lpending[idx] = append(i.lpending[idx], n)
+			continue
+		}
+		call(h, n)
+	}
+}
+
+// LaggingListeners returns the indexes of lagging listeners with pending notifications, sorted.
+func (i *Informer) LaggingListeners() []int {
+	var out []int
+	for idx, l := range i.lpending {
+		if len(l) > 0 {
+			out = append(out, idx)
+		}
+	}
+	sort.Ints(out)
+	return out
+}
+
+// ListenerPending returns the pending notifications of a lagging listener.
+func (i *Informer) ListenerPending(idx int) []Notification { return i.lpending[idx] }
+
+// DeliverListener runs the oldest pending notification of a lagging listener.
+func (i *Informer) DeliverListener(idx int) bool {
+	l := i.lpending[idx]
+	if len(l) == 0 {
+		return false
+	}
+	i.lpending[idx] = l[1:]
+	call(i.handlers[idx], l[0])
+	return true
+}
+
+// Resync notifies every handler with an update (old == new) for every cached object, as the
+// periodic resync of a shared informer does. Lagging listeners get it queued like any event.
+func (i *Informer) Resync() {
+	for _, o := range i.indexer.List() {
+		obj := o.(runtime.Object)
+		i.notify(Modified, obj, obj)
+	}
 }
 
 // SyncFrom fills the cache with an initial list (Add notifications), as an
@@ -159,19 +220,28 @@ func (i *Informer) GetIndexer() cache.Indexer                          { return 
 
 // InformerSnapshot captures cache content and pending events.
 type InformerSnapshot struct {
-	cache   []interface{}
-	pending []Event
+	cache    []interface{}
+	pending  []Event
+	lpending map[int][]Notification
 }
 
 // Snapshot captures the informer state (objects are shared, never mutated).
 func (i *Informer) Snapshot() *InformerSnapshot {
-	return &InformerSnapshot{cache: i.indexer.List(), pending: append([]Event(nil), i.pending...)}
+	s := &InformerSnapshot{cache: i.indexer.List(), pending: append([]Event(nil), i.pending...), lpending: map[int][]Notification{}}
+	for k, v := range i.lpending {
+		s.lpending[k] = append([]Notification(nil), v...)
+	}
+	return s
 }
 
 // Restore resets the informer to a snapshot without notifying handlers.
 func (i *Informer) Restore(s *InformerSnapshot) {
 	_ = i.indexer.Replace(s.cache, "")
 	i.pending = append([]Event(nil), s.pending...)
+	i.lpending = map[int][]Notification{}
+	for k, v := range s.lpending {
+		i.lpending[k] = append([]Notification(nil), v...)
+	}
 }
 
 // sortedIndexer fixes the order in which listers return objects (the real
